@@ -143,6 +143,14 @@ private:
     return absval;
   }
   
+  // An operation (e.g., a division by zero) can make the base domain
+  // of a pack bottom: the whole abstract state is then bottom.
+  void normalize_if_bottom(const base_domain_t &absval) {
+    if (absval.is_bottom()) {
+      set_to_bottom();
+    }
+  }
+
   numerical_packing_domain(union_find_domain_t &&packs)
       : m_packs(std::move(packs)) {}
 
@@ -357,6 +365,7 @@ public:
       absval = merge(vars);
       if (absval) {
         absval->assign(x, e);
+        normalize_if_bottom(*absval);
       } else {
 	CRAB_ERROR(domain_name(), "::assign produced bottom!");
       }
@@ -387,6 +396,7 @@ public:
     if (!is_bottom()) {
       if (std::shared_ptr<base_domain_t> absval = apply_packs(x, y)) {
 	absval->apply(op, x, y, z);
+	normalize_if_bottom(*absval);
       } else {
 	CRAB_ERROR(domain_name(), "::apply 1 produced bottom!");
       }
@@ -398,6 +408,7 @@ public:
     if (!is_bottom()) {
       if (std::shared_ptr<base_domain_t> absval = apply_packs(x, y, z)) {
 	absval->apply(op, x, y, z);
+	normalize_if_bottom(*absval);
       } else {
 	CRAB_ERROR(domain_name(), "::apply 2 produced bottom!");
       }
@@ -411,6 +422,7 @@ public:
       variable_vector_t vars{src, dst};
       if (std::shared_ptr<base_domain_t> absval = merge(vars)) {
         absval->apply(op, dst, src);
+        normalize_if_bottom(*absval);
       } else {
 	CRAB_ERROR(domain_name(), "::apply 3 produced bottom!");
       }
@@ -422,6 +434,7 @@ public:
     if (!is_bottom()) {
       if (std::shared_ptr<base_domain_t> absval = apply_packs(x, y)) {
         absval->apply(op, x, y, k);
+        normalize_if_bottom(*absval);
       } else {
 	CRAB_ERROR(domain_name(), "::apply 4 produced bottom!");
       }
@@ -433,6 +446,7 @@ public:
     if (!is_bottom()) {
       if (std::shared_ptr<base_domain_t> absval = apply_packs(x, y, z)) {
         absval->apply(op, x, y, z);
+        normalize_if_bottom(*absval);
       } else {
 	CRAB_ERROR(domain_name(), "::apply 5 produced bottom!");
       }
@@ -459,6 +473,7 @@ public:
 
       if (std::shared_ptr<base_domain_t> absval = merge(vars)) {
         absval->select(lhs, cond, e1, e2);
+        normalize_if_bottom(*absval);
       }
     }
   }
